@@ -314,6 +314,13 @@ def run(R):
     hist_generic = {"servers": n_generic, "injected_values": n_generic_vals, "generic_or_concrete_shadows_the_other": n_generic_shadow,
                     "model_queries": len(glines)}
 
+    # ---- recorded witnesses that must be REJECTED for this property's sake (a never-clone value that could only be served
+    # by a clone): accepted = the value was duplicated
+    for o in obs.values():
+        if o["klass"] == "corpus" and (o.get("meta") or {}).get("must_reject_for") == "C04" and o["rc"] == 0:
+            fails.append({"program": o["name"], "corpus": o.get("corpus"), "why": "the blueprint of witness `%s` was accepted although it can only be served by cloning a never-clone value: %s" % (
+                o.get("corpus"), [l.strip() for l in o["lib_rs"].split("\n") if "Clone>::clone" in l][:3]), "app_module_source": o["src"]})
+
     # ---- L3b: clone nodes in the dumped call graphs ------------------------------------------------------
     graphs = clone_graphs(obs)
     greqs, gown, graph_fails = [], [], []
